@@ -7,10 +7,19 @@ the model's Enc / Dec results; harness/c09 builds the Go types with reflect.Stru
 tls.Marshal[WithParams] / tls.Unmarshal[WithParams] with the model case by case (TestReplay), then
 runs seeded random types / values / byte strings against the reference codec that the replay ties to
 the specification (TestRandom).
+
+Concurrency layer: spec/codec/TLSCodecConc.tla states the function law over several callers (every call
+returns what it returns alone, whichever calls are in flight and whether or not the package has met the
+type before).  TLC checks it for the sound models of a per-type memo and refutes it for three defective
+ones (ExposeProbe prints the classes of the refuting rounds); MCTLSCodecConc.tla makes the rounds concrete
+(shape x callers x Marshal/Unmarshal mix x arguments x call before x call after x one/two types) with the
+model's Enc / Dec as expected results, and harness/c09 TestConcurrent executes every round on struct types
+built for that execution alone (first use inside the wave), without and with the race detector.
 """
 import concurrent.futures
 import json
 import os
+import threading
 
 from vlib import Infra
 
@@ -27,45 +36,135 @@ ASSUME = [
     "named clause EnumBoundIsWidth: an enum is bounded by its width, not by maxval (RFC 5246 4.5), in both directions",
     "'no out-of-bounds read' is Go memory safety (a panic is a violation); 'allocation the input justifies' is "
     "TotalAlloc per decode <= (64 + 2*sizeof(largest vector element type)) * len(input) + 8 KiB",
+    "concurrent callers: rounds of a solo call | none, a wave of 2 / 4 / 8 goroutines released together, a solo call "
+    "| none, on struct types never seen by the process (renamed members); interleavings inside a wave are whatever "
+    "the scheduler gives (no hooks inside tls), each round is executed several times; data races are judged by the "
+    "Go race detector on a second run of the same rounds",
 ]
 
-def export_cases(ctx):
-    """Runs Parts TLC processes (one worker each: export order) and returns (path of the NDJSON file, #cases, #inputs)."""
+DEFECTIVE = ("publish-then-fill", "fill-while-walking", "shared-scratch")
+
+def _tlc_again(ctx, what, run):
+    try:
+        return run(0)
+    except Infra as ex:
+        if "rc=143" not in str(ex) and "rc=137" not in str(ex):
+            raise
+        ctx.log("TLC %s was killed from outside, running it again" % what)
+        return run(1)
+
+
+def export_cases(ctx, conc_only=False):
+    """Runs the TLC processes of the check in one pool (export needs one worker each: export order):
+    Parts partitions of MCTLSCodec (sequential cases), the partitions of MCTLSCodecConc (shapes and rounds of the
+    concurrency layer) and the two runs of TLSCodecConc (function law / refutation probe).
+    Returns (cases path, #cases, #inputs, rounds path, #rounds, exposing classes per defective discipline)."""
     cfg = ctx.pick("MCTLSCodec.cfg", "MCTLSCodecThorough.cfg")
-    parts = ctx.pick(8, 48)
-    pool = min(parts, ctx.pick(8, 16), os.cpu_count() or 8)
+    parts = 0 if conc_only else ctx.pick(8, 48)
+    cparts = ctx.pick(3, 6)
+    pool = min(parts + cparts + 2, ctx.pick(8, 16), os.cpu_count() or 8)
 
     def one(p):
         def tlc(attempt):
             return ctx.tlc("codec", "MCTLSCodec", cfg, workers=1, env={"VERIF_PART": p, "VERIF_PARTS": parts},
                            label="%s-part%d-%d" % (cfg, p, attempt), timeout=ctx.pick(900, 3000),
                            java_opts=["-Xmx1500m", "-XX:ParallelGCThreads=2"])
-        try:
-            r = tlc(0)
-        except Infra as ex:
-            if "rc=143" not in str(ex) and "rc=137" not in str(ex):
-                raise
-            ctx.log("TLC partition %d was killed from outside, running it again" % p)
-            r = tlc(1)
+        r = _tlc_again(ctx, "partition %d" % p, tlc)
         cases = r.records.pop("CASE", [])
         r.out = ""
         path = ctx.write_ndjson("cases-part%d.ndjson" % p, cases)
         return path, len(cases), sum(len(c["ins"]) for c in cases)
 
+    def conc(p):
+        ccfg = ctx.pick("MCTLSCodecConc.cfg", "MCTLSCodecConcThorough.cfg")
+
+        def tlc(attempt):
+            return ctx.tlc("codec", "MCTLSCodecConc", ccfg, workers=1, env={"VERIF_PART": p, "VERIF_PARTS": cparts},
+                           label="%s-part%d-%d" % (ccfg, p, attempt), timeout=ctx.pick(900, 3000),
+                           java_opts=["-Xmx1500m", "-XX:ParallelGCThreads=2"])
+        r = _tlc_again(ctx, "concurrency partition %d" % p, tlc)
+        recs = r.records.pop("BASE", []) + r.records.pop("ROUND", [])
+        r.out = ""
+        return ctx.write_ndjson("rounds-part%d.ndjson" % p, recs), sum(1 for x in recs if x["kind"] == "round")
+
+    def law(which):
+        # the thorough tier adds three callers on one type to the two callers on two types of the quick tier
+        if which == "sound":
+            # FunctionLaw is an invariant of every round under the sound disciplines
+            for lcfg in ctx.pick(["TLSCodecConc.cfg"], ["TLSCodecConc.cfg", "TLSCodecConcThorough.cfg"]):
+                ctx.tlc("codec", "TLSCodecConc", lcfg, workers=3, timeout=ctx.pick(600, 1800),
+                        java_opts=["-Xmx2g", "-XX:ParallelGCThreads=2"])
+            # and every call of every round returns, under every discipline
+            ctx.tlc("codec", "TLSCodecConc", "TLSCodecConcLive.cfg", workers=2, timeout=600,
+                    java_opts=["-Xmx1g", "-XX:ParallelGCThreads=2"])
+            return None
+        exposing = {}
+        for lcfg in ctx.pick(["TLSCodecConcRefute.cfg"], ["TLSCodecConcRefute.cfg", "TLSCodecConcRefuteThorough.cfg"]):
+            r = ctx.tlc("codec", "TLSCodecConc", lcfg, workers=3, timeout=ctx.pick(600, 1800),
+                        java_opts=["-Xmx2g", "-XX:ParallelGCThreads=2"])
+            for e in r.records.pop("EXPOSED", []):
+                exposing.setdefault(e["disc"], set()).add(json.dumps(e["class"], sort_keys=True))
+            r.out = ""
+        return exposing
+
     with concurrent.futures.ThreadPoolExecutor(max_workers=pool) as ex:
+        # the longest first
+        fconc = [ex.submit(conc, p) for p in range(cparts)]
+        flaw = [ex.submit(law, w) for w in ("sound", "refute")]
         results = list(ex.map(one, range(parts)))
-    path = os.path.join(ctx.work, "cases.ndjson")
-    with open(path, "w") as out:
-        for part, _, _ in results:
-            with open(part) as f:
-                for line in f:
-                    out.write(line)
-            os.remove(part)
+        cresults = [f.result() for f in fconc]
+        exposing = [f.result() for f in flaw][1]
+
+    def join(name, partfiles):
+        path = os.path.join(ctx.work, name)
+        with open(path, "w") as out:
+            for part in partfiles:
+                with open(part) as f:
+                    for line in f:
+                        out.write(line)
+                os.remove(part)
+        return path
+
+    rpath = join("rounds.ndjson", [r[0] for r in cresults])
+    nrounds = sum(r[1] for r in cresults)
+    if nrounds < 300:
+        raise Infra("TLC exported only %d rounds" % nrounds)
+    for d in DEFECTIVE:
+        if not exposing.get(d):
+            raise Infra("TLSCodecConc: FunctionLaw was not refuted for the discipline %s (the probe is vacuous)" % d)
+    if conc_only:
+        return None, 0, 0, rpath, nrounds, exposing
+    path = join("cases.ndjson", [r[0] for r in results])
     ncases, ninputs = sum(r[1] for r in results), sum(r[2] for r in results)
     if ncases < 1000:
         raise Infra("TLC exported only %d cases" % ncases)
     ctx.exhaustive = True
-    return path, ncases, ninputs
+    return path, ncases, ninputs, rpath, nrounds, exposing
+
+
+def concurrent_rounds(ctx, rpath, exposing, reps=None):
+    """TestConcurrent without and with the race detector; the executed rounds must contain, for every defective
+    discipline of TLSCodecConc.tla, rounds of a class on which TLC told it from the function."""
+    env = {"VERIF_CASES": rpath, "VERIF_CONC_REPS": ctx.pick(3, 12), "VERIF_CONC_WIDE_REPS": ctx.pick(30, 60),
+           "VERIF_CONC_RANDOM": ctx.pick(1500, 20000)}
+    if reps:
+        env.update({"VERIF_CONC_REPS": reps, "VERIF_CONC_WIDE_REPS": 10 * reps})
+    _, _, reports = ctx.go_test("c09", run="TestConcurrent$", env=env, timeout=ctx.pick(900, 3000), name="c09conc")
+    renv = dict(env, VERIF_CONC_NAME="c09-concurrent-race", VERIF_CONC_REPS=ctx.pick(1, 3),
+                VERIF_CONC_WIDE_REPS=ctx.pick(4, 20), VERIF_CONC_RANDOM=ctx.pick(400, 4000))
+    ctx.go_test("c09", run="TestConcurrent$", env=renv, race=True, timeout=ctx.pick(900, 3000), name="c09concrace")
+    executed = set()
+    for rep in reports:
+        for cl in (rep.get("extra") or {}).get("classes", {}):
+            executed.add(json.dumps(json.loads(cl), sort_keys=True))
+    if not reports:
+        return
+    for d in DEFECTIVE:
+        hit = executed & exposing[d]
+        ctx.log("rounds executed in %d classes; %d of the %d classes that expose '%s' among them" % (
+            len(executed), len(hit), len(exposing[d]), d))
+        if not hit:
+            raise Infra("no executed round is of a class that exposes the discipline %s" % d)
 
 
 def run(ctx, replay=None):
@@ -74,18 +173,43 @@ def run(ctx, replay=None):
         with open(replay) as f:
             rp = json.load(f)
         data = rp.get("replay") or {}
-        if "case" in data:
+        if data.get("conc") or "TestConcurrent" in " ".join(data.get("cmd") or []):
+            # a violation of the concurrency layer (or a crash / data race of that run): the rounds again, more often
+            if data.get("seed"):
+                ctx.seed = int(data["seed"])
+            _, _, _, rpath, _, exposing = export_cases(ctx, conc_only=True)
+            concurrent_rounds(ctx, rpath, exposing, reps=20)
+        elif "output_tail" in data:
+            return run(ctx)         # a crash of the process in another step: the whole check again
+        elif "case" in data:
             path = ctx.write_ndjson("replay.ndjson", [data["case"]])
             ctx.go_test("c09", run="TestReplay$", env={"VERIF_CASES": path})
         else:
             path = ctx.write_ndjson("replay.ndjson", [data])
             ctx.go_test("c09", run="TestReplayRandom$", env={"VERIF_CASES": path})
         return
-    # 1. TLC: the laws on the model, for every enumerated (type, value, byte string); every case exported
-    path, ncases, ninputs = export_cases(ctx)
-    ctx.log("cases: %d (type, value) pairs, %d byte strings" % (ncases, ninputs))
-    # 2. every case against tls.Marshal / tls.Unmarshal on run-time built Go types
-    ctx.go_test("c09", run="TestReplay$", env={"VERIF_CASES": path}, timeout=ctx.pick(900, 3000))
-    # 3. random types / values / byte strings against the reference codec (tied to the spec by step 2)
-    ctx.go_test("c09", run="TestRandom$", env={"VERIF_TYPES": ctx.pick(2500, 40000)}, timeout=ctx.pick(900, 3000),
-                name="c09random")
+    # 1. TLC: the laws on the model, for every enumerated (type, value, byte string); every case exported;
+    #    the function law over concurrent callers, the rounds of the concurrency layer
+    path, ncases, ninputs, rpath, nrounds, exposing = export_cases(ctx)
+    ctx.log("cases: %d (type, value) pairs, %d byte strings; %d rounds of concurrent callers" % (ncases, ninputs, nrounds))
+    # 2. every case against tls.Marshal / tls.Unmarshal on run-time built Go types; beside it (the replay is one
+    #    goroutine) the rounds of concurrent callers on fresh types, without and with -race,
+    #    and the random types / values / byte strings against the reference codec (tied to the spec by the replay)
+    errs = []
+
+    def side():
+        try:
+            concurrent_rounds(ctx, rpath, exposing)
+            ctx.go_test("c09", run="TestRandom$", env={"VERIF_TYPES": ctx.pick(2500, 40000)},
+                        timeout=ctx.pick(900, 3000), name="c09random")
+        except BaseException as ex:  # noqa
+            errs.append(ex)
+
+    th = threading.Thread(target=side)
+    th.start()
+    try:
+        ctx.go_test("c09", run="TestReplay$", env={"VERIF_CASES": path}, timeout=ctx.pick(900, 3000))
+    finally:
+        th.join()
+    if errs:
+        raise errs[0]
